@@ -28,19 +28,24 @@ fn ill(state: &str, op: &Op) -> String {
 
 macro_rules! walkers {
     ($modname:ident, $Out:ident, clone = $clone:tt) => {
+        walkers!(@gen $modname, $Out, $clone, Owning<$Out>, $Out, $Out, $Out::new);
+    };
+    // $Kind: the OutputKind; $AnsOut: what an answer function returns (may mention 'u); $RetTy: the value handed to returns();
+    // $mk: String -> $RetTy
+    (@gen $modname:ident, $Out:ident, $clone:tt, $Kind:ty, $AnsOut:ty, $RetTy:ty, $mk:expr) => {
         pub mod $modname {
             use super::*;
 
-            pub type AnsFn = dyn (for<'u> Fn(&'u Unimock, u8) -> $Out) + Send + Sync;
+            pub type AnsFn = dyn (for<'u> Fn(&'u Unimock, u8) -> $AnsOut) + Send + Sync;
 
             pub trait Sig:
-                MockFn<OutputKind = Owning<$Out>, AnswerFn = AnsFn>
+                MockFn<OutputKind = $Kind, AnswerFn = AnsFn>
                 + for<'i> MockFn<Inputs<'i> = u8>
                 + 'static
             {
             }
             impl<F> Sig for F where
-                F: MockFn<OutputKind = Owning<$Out>, AnswerFn = AnsFn>
+                F: MockFn<OutputKind = $Kind, AnswerFn = AnsFn>
                     + for<'i> MockFn<Inputs<'i> = u8>
                     + 'static
             {
@@ -65,19 +70,19 @@ macro_rules! walkers {
                 }
             }
 
-            fn answer(f: u32) -> impl (for<'u> Fn(&'u Unimock, u8) -> $Out) + Send + Sync {
+            fn answer(f: u32) -> impl (for<'u> Fn(&'u Unimock, u8) -> $AnsOut) + Send + Sync {
                 move |_, a| {
                     if f >= 1000 {
                         panic!("user:ans");
                     }
-                    $Out::new(format!("a{f}({a})"))
+                    $mk(format!("a{f}({a})"))
                 }
             }
 
             pub enum St<'p, F: Sig, O: Ordering + Copy> {
                 DR(DefineResponse<'p, F, O>),
                 DMR(DefineMultipleResponses<'p, F, O>),
-                QRV(QuantifyReturnValue<'p, F, $Out, O>),
+                QRV(QuantifyReturnValue<'p, F, $RetTy, O>),
                 Q(Quantify<'p, F, O>),
                 QRE(QuantifiedResponse<'p, F, O, Exact>),
                 QRA(QuantifiedResponse<'p, F, O, AtLeast>),
@@ -109,11 +114,11 @@ macro_rules! walkers {
                 // Ok(Ok(next)) = handled; Ok(Err(st)) = not a common step
                 match st {
                     St::DR(b) => match op {
-                        Op::Ret(v) => Ok(Ok(St::QRV(b.returns($Out::new(format!("r{v}")))))),
+                        Op::Ret(v) => Ok(Ok(St::QRV(b.returns($mk(format!("r{v}")))))),
                         _ => common_response!(b, op, "DefineResponse").map(Ok),
                     },
                     St::DMR(b) => match op {
-                        Op::Ret(v) => walkers!(@dmr_returns $clone, b, v, $Out).map(Ok),
+                        Op::Ret(v) => walkers!(@dmr_returns $clone, b, v, $mk).map(Ok),
                         _ => common_response!(b, op, "DefineMultipleResponses").map(Ok),
                     },
                     St::QRV(b) => match op {
@@ -274,10 +279,10 @@ macro_rules! walkers {
         }
     };
 
-    (@dmr_returns true, $b:expr, $v:expr, $Out:ident) => {
-        Ok::<_, String>(St::Q($b.returns($Out::new(format!("r{}", $v)))))
+    (@dmr_returns true, $b:expr, $v:expr, $mk:expr) => {
+        Ok::<_, String>(St::Q($b.returns($mk(format!("r{}", $v)))))
     };
-    (@dmr_returns false, $b:expr, $v:expr, $Out:ident) => {{
+    (@dmr_returns false, $b:expr, $v:expr, $mk:expr) => {{
         let _ = ($b, $v);
         Err::<St<'p, F, O>, String>("DefineMultipleResponses::returns needs Clone".into())
     }};
@@ -299,6 +304,12 @@ macro_rules! walkers {
 
 walkers!(val, Val, clone = true);
 walkers!(uniq, Uniq, clone = false);
+// a composite single-use value: two owned, non-Clone components around a borrowed one
+walkers!(@gen triple, Uniq, false, <PMock::mt as MockFn>::OutputKind, (Uniq, &'u str, Uniq), (Uniq, &'static str, Uniq), mk_triple);
+
+fn mk_triple(s: String) -> (Uniq, &'static str, Uniq) {
+    (Uniq::new(s.clone()), "lent", Uniq::new(s))
+}
 
 pub fn push_call(dc: &mut DynClause, mid: u32, opener: Opener, pat: &Pat) -> Result<(), String> {
     match mid {
@@ -310,6 +321,7 @@ pub fn push_call(dc: &mut DynClause, mid: u32, opener: Opener, pat: &Pat) -> Res
         5 => uniq::push_call(dc, TMock::m5, opener, pat),
         6 => val::push_call(dc, GMock::g.with_types::<u8>(), opener, pat),
         7 => val::push_call(dc, GMock::g.with_types::<u16>(), opener, pat),
+        9 => triple::push_call(dc, PMock::mt, opener, pat),
         _ => Err(format!("no such method {mid}")),
     }
 }
@@ -324,6 +336,7 @@ pub fn push_stub(dc: &mut DynClause, mid: u32, pats: &[Pat]) -> Result<(), Strin
         5 => uniq::push_stub(dc, TMock::m5, pats),
         6 => val::push_stub(dc, GMock::g.with_types::<u8>(), pats),
         7 => val::push_stub(dc, GMock::g.with_types::<u16>(), pats),
+        9 => triple::push_stub(dc, PMock::mt, pats),
         _ => Err(format!("no such method {mid}")),
     }
 }
